@@ -2,8 +2,8 @@
 from .. import lib, runner
 
 PROP = "C03"
-THEOREMS = ["MemMap.translate_arith", "MemMap.all_within", "MemMap.all_sorted", "MemMap.decode_iff_reported", "MemMap.decode_none_iff", "MemMap.decodeFuel_eq", "MemMap.all_ids", "MemMap.find_eq_all", "RangeMap.get_exact"]
-IMPORTS = ["SocVerif.Props.C03"]
+THEOREMS = ["MemMap.translate_arith", "MemMap.all_within", "MemMap.all_sorted", "MemMap.decode_iff_reported", "MemMap.decode_none_iff", "MemMap.decodeFuel_eq", "MemMap.all_ids", "MemMap.find_eq_all", "RangeMap.get_exact", "MemMap.ok_of_struct", "MemMap.reachable_struct", "MemMap.reachable_ok", "MemMap.allOk_of_ratioOne"]
+IMPORTS = ["SocVerif.Props.C03", "SocVerif.Props.C03R"]
 
 
 def nontrivial(r):
